@@ -339,10 +339,16 @@ Record hcase := HC {
   h_workers : nat;                       (* WorkersCount *)
   h_complete : bool;                     (* the child reached quiescence before its watchdog *)
   h_pev : list pev;
-  h_handed : list (hqurl * bool);        (* URLs the HQ handed out on get, with "ParseRequestURI accepts it" *)
+  h_gets : list (option (list (hqurl * bool)));
+                                         (* every get that found the feed non-empty, in arrival order: what the
+                                            HQ handed out (with "ParseRequestURI accepts it"), None = it failed *)
   h_seeds : list seed;                   (* seeds that left the reactor *)
   h_fev : list fev
 }.
+
+(* everything the HQ handed out (and holds as claimed by this crawler) - observed, no model call *)
+Definition h_handed (c : hcase) : list (hqurl * bool) :=
+  flat_map (fun g => match g with Some us => us | None => [] end) (h_gets c).
 
 Definition hq_triple (u : hqurl) : b3 := (hu_value u, hu_via u, hu_path u).
 
@@ -360,7 +366,7 @@ Definition hdiff (c : hcase) : bool :=
     trace_ok b3_eqb (hq_producer_cfg (h_bsize c) (h_workers c)) (map pev_oev (h_pev c)) (h_complete c)
     && trace_ok idn_eqb (hq_finisher_cfg (h_workers c)) (map fev_oev (h_fev c)) (h_complete c)
     && (negb (h_complete c) ||
-        seeds_ms_eqb (map seed_of_hq (map fst (filter snd (h_handed c)))) (h_seeds c))
+        seeds_ms_eqb (map seed_of_hq (map fst (filter snd (round_urls (h_gets c))))) (h_seeds c))
     && forallb (fun e => match e with FA b _ crawls _ => N.eqb (sumN b) crawls | _ => true end) (h_fev c)).
 
 (* monitor 0: every produced outlink was delivered exactly once by an acknowledged add, with its
@@ -393,10 +399,9 @@ Definition hmon_batches (c : hcase) : bool :=
   && forallb (fun e => match e with PA _ _ k => k <=? nsend pc | _ => true end) (h_pev c)
   && forallb (fun e => match e with FA _ _ _ k => k <=? nsend fc | _ => true end) (h_fev c).
 
-(* monitor 2: the round trip back into a seed - every parsable URL the HQ handed out left the
-   reactor as a seed with the same id, text, via and the hop count its path encodes *)
+(* monitor 2: the round trip back into a seed - every parsable URL the HQ handed out (by any get,
+   whatever happened to the gets around it) left the reactor as a seed, exactly once, with the same id, text, via and the hop count its path encodes *)
 Definition hmon_seeds (c : hcase) : bool :=
-  negb (h_complete c) ||
   seeds_ms_eqb
     (map (fun u => SD (hu_id u) (hu_value u) (hu_via u) (nL (hu_path u))) (map fst (filter snd (h_handed c))))
     (h_seeds c).
